@@ -150,7 +150,7 @@ UNIT = {
                                 ('seq', 'iti.seq() =~= items.0@.map_values(|v: Value| &v)'),
                                 ('items_so_far', 'result@ =~= dedup_items(union_upto(lists@, ito.index@ as int), items.0@, iti.index@ as int)')],
                             'body_prefix': 'proof { assert(*item == items.0@[iti.index@ as int]); }'}}),
-        bif('flatten_value', body_prefix='', loops=1, ret=None, attrs='#[verifier::exec_allows_no_decreases_clause]',
+        bif('flatten_value', body_prefix='', loops=1, ret=None, decreases='*value',
             sig_rewrite=[(r'^(\s*)fn ', r'\1pub fn ')],
             ensures=[('appends_the_flattened_items', 'value is List ==> final(flattened)@ =~= old(flattened)@ + flat_items(value->List_0, 0)'),
                      ('nothing_for_a_non_list', '!(value is List) ==> final(flattened)@ =~= old(flattened)@')],
@@ -158,7 +158,7 @@ UNIT = {
                                 ('ctx', '*value is List, value->List_0 == *items'),
                                 ('seq', 'it.seq() =~= items.0@.map_values(|v: Value| &v)'),
                                 ('so_far', 'flattened@ + flat_items(*items, it.index@ as int) =~= old(flattened)@ + flat_items(*items, 0)')],
-                            'body_prefix': 'proof { assert(*item == items.0@[it.index@ as int]); }\nlet ghost before = flattened@;',
+                            'body_prefix': 'proof { assert(*item == items.0@[it.index@ as int]); vstd::std_specs::vec::axiom_vec_index_decreases(items.0, it.index@ as int); assert(decreases_to!(*value => value->List_0)); assert(decreases_to!(*items => items.0)); assert(decreases_to!(*value => *item)); }\nlet ghost before = flattened@;',
                             'body_suffix': 'proof { assert(flat_items(*items, it.index@ as int) =~= (if item is List { flat_items(item->List_0, 0) } else { seq![*item] }) + flat_items(*items, it.index@ + 1)); '
                                            'assert(flattened@ =~= before + (if item is List { flat_items(item->List_0, 0) } else { seq![*item] })); }'}}),
         bif('flatten', body_prefix='', loops=0,
